@@ -388,7 +388,11 @@ func genRefTrim(t *rapid.T, sub func() *Expr, term func() *Expr) *Expr {
 		return term(), true
 	}
 	op, single := fresh()
-	switch rapid.IntRange(0, 3).Draw(t, "trimSide") {
+	switch rapid.IntRange(0, 4).Draw(t, "trimSide") {
+	case 4:
+		// the one shape with an Optional inside that is beyond doubt: LeftTrim in the mode no run
+		// violates (the whitespace goes, then the operand matches or matches nothing)
+		return &Expr{K: KLTrim, Mode: 2, Kids: []*Expr{{K: KOpt, Kids: []*Expr{term()}}}}
 	case 0:
 		return &Expr{K: KLTrim, Mode: mode(), Kids: []*Expr{op}}
 	case 1, 2:
@@ -557,6 +561,50 @@ func shareTransform(t *rapid.T, g *Grammar, o GenOpts) {
 	alts = append(alts, g.Rules[host])
 	kind := KAny
 	g.Rules[host] = &Expr{K: kind, Kids: alts}
+	g.number()
+}
+
+// trimShareTransform: a memoized rule S that records a further error while it succeeds is reached at
+// one position along two paths of the host rule - once below a LeftTrim that skipped the whitespace
+// in front of it, once directly, after a RightTrim of the previous token ate the same whitespace:
+// N -> Any(SeqOf(x, LTrim(SeqOf(S)), ..), SeqOf(RTrim(x), S, ..), body).
+func trimShareTransform(t *rapid.T, g *Grammar, o GenOpts) {
+	term := func() *Expr {
+		return tm(o.Alphabet[rapid.IntRange(0, len(o.Alphabet)-1).Draw(t, "tsch")])
+	}
+	var body *Expr
+	switch rapid.IntRange(0, 3).Draw(t, "tsbody") {
+	case 0:
+		body = ex(KSeqTry, term(), term(), term())
+	case 1:
+		body = ex(KMany, ex(KSeqOf, term(), term()))
+	case 2:
+		body = ex(KSeqOf, ex(KOpt, term()), term())
+	default:
+		body = ex(KAny, term(), ex(KSeqOf, term(), term()))
+	}
+	for i := range g.Layer {
+		g.Layer[i]++
+	}
+	g.Rules = append(g.Rules, body)
+	g.Layer = append(g.Layer, 0)
+	s := len(g.Rules) - 1
+	x := term()
+	mode := rapid.SampledFrom([]int{2, 2, 1, 3}).Draw(t, "tsmode")
+	tail := func() []*Expr {
+		if rapid.Bool().Draw(t, "tstail") {
+			return []*Expr{term()}
+		}
+		return nil
+	}
+	a := &Expr{K: KSeqOf, Kids: append([]*Expr{tm(x.ch()), {K: KLTrim, Mode: mode, Kids: []*Expr{ex(KSeqOf, rf(s))}}}, tail()...)}
+	b := &Expr{K: KSeqOf, Kids: append([]*Expr{{K: KRTrim, Mode: 2, Kids: []*Expr{tm(x.ch())}}, rf(s)}, tail()...)}
+	host := rapid.IntRange(0, s-1).Draw(t, "tshost")
+	alts := []*Expr{a, b}
+	if rapid.Bool().Draw(t, "tsswap") {
+		alts = []*Expr{b, a}
+	}
+	g.Rules[host] = &Expr{K: KAny, Kids: append(alts, g.Rules[host])}
 	g.number()
 }
 
